@@ -155,6 +155,15 @@ def _sites():
     s_named_unclaim_postings_found_and_missing = _named_claim('raw_postings_with_comments', 'unclaim_interleaving_comments', True)
     del _named_claim
 
+    def s_dropmany_valid_and_out_of_range(f, g):
+        f.raw_directives[1].raw_postings_with_comments.drop_many([0, 7])
+
+    def s_dropmany_out_of_range_first(f, g):
+        f.raw_directives[1].raw_postings_with_comments.drop_many(iter([9, 0]))
+
+    def s_dropmany_negative_out_of_range(f, g):
+        f.raw_directives[1].raw_postings_with_comments.drop_many((1, -9))
+
     def _loose_comment(how):
         """An unowned comment of the document handed to a single-value mutator: refused, and still unowned afterwards."""
         def site(f, g):
@@ -268,7 +277,8 @@ MUST_REFUSE = {'claim_foreign', 'unclaim_foreign', 'claim_claimed', 'cost_illega
                'view_slice_last_directive_of_other_file', 'extend_last_directive_of_other_file', 'append_last_directive_of_other_file',
                'slot_first_token_of_other_model', 'slot_number_at_start_of_free_amount', 'named_claim_meta_found_and_missing',
                'named_claim_postings_found_and_missing', 'named_unclaim_meta_found_and_missing', 'named_unclaim_postings_found_and_missing',
-               'loose_comment_into_slot', 'loose_comment_appended', 'loose_comment_setitem'}
+               'loose_comment_into_slot', 'loose_comment_appended', 'loose_comment_setitem',
+               'dropmany_valid_and_out_of_range', 'dropmany_out_of_range_first', 'dropmany_negative_out_of_range'}
 
 
 def run(ctx):
